@@ -89,7 +89,7 @@ Definition lmax (l : list nat) : nat := fold_right Nat.max 0%nat l.
 Lemma lmax_ge l x : In x l -> (x <= lmax l)%nat.
 Proof. unfold lmax. induction l as [|y t IH]; cbn; [contradiction|]. intros [E | H]; [subst; lia | specialize (IH H); lia]. Qed.
 Definition step_fuel (st : Describe.dstep) : nat := lmax (map tfuel (scopes_of_step st)).
-Definition plugin_fuel (p : dplugin) : nat := (8 + lmax (map (fun ks => step_fuel (snd ks)) p))%nat.
+Definition plugin_fuel (p : dplugin) : nat := (11 + lmax (map (fun ks => step_fuel (snd ks)) p))%nat.
 
 Section Plugin.
 Variable words : list (string * bool).
@@ -114,7 +114,7 @@ Qed.
 Lemma S_display n d dd : odisplay_ok (Some d) = true -> A (S (S (S n))) (SRef "Display" "" dd) (d_display d).
 Proof.
   intros H. apply (A_ref words pu schema_objs schema_tab jor); [vm_compute; reflexivity|].
-  apply (A_display words pu schema_objs schema_tab jor). exact H.
+  apply (A_display words pu schema_objs jor). exact H.
 Qed.
 
 Ltac leaf :=
